@@ -195,6 +195,18 @@ func C14(c *run.Ctx) {
 			}
 			return b2i(s.authOff >= 0)
 		}},
+		{"prompt=login+consent", url.Values{"prompt": {"login consent"}}, func(s sessVar) int {
+			if s.zeroAuth {
+				return 0
+			}
+			return b2i(s.authOff >= 0)
+		}},
+		{"prompt=select_account+login", url.Values{"prompt": {"select_account login"}}, func(s sessVar) int {
+			if s.zeroAuth {
+				return 0
+			}
+			return b2i(s.authOff >= 0)
+		}},
 		{"prompt=none+login", url.Values{"prompt": {"none login"}}, func(s sessVar) int { return 0 }},
 		{"prompt=unknown", url.Values{"prompt": {"sudo"}}, func(s sessVar) int { return 0 }},
 		{"id_token_hint=own", url.Values{"id_token_hint": {"OWN"}}, func(s sessVar) int { return 1 }},
